@@ -583,7 +583,7 @@ func c03WitnessStale(kind string, cp int) c03Case {
 		Ops: []string{fmt.Sprintf("c%s,%d", kind, cp), "s1,0", "s2,4", "r1", "s0,0", "s2,0", "r3", "r3", "r3"}}
 }
 
-// Seek served from the cache with read-ahead running (deterministic: no race involved)
+// Seek served from the cache with read-ahead running (no eviction involved; fails in most runs without repair C03-3)
 func c03WitnessSeekHit(variant int) c03Case {
 	cs := c03Case{Payloads: []string{"41414141", "42424242", "43434343", "44444444"}, Rd: 2, Tag: "witness-seekhit"}
 	if variant == 0 {
